@@ -17,6 +17,12 @@ CLAIMS = {
  "C04": dict(level="exploration", technique=T_MODEL,
    text="Model-based stateful test of the ledger alone: confirmations on any stored block (valid, two-coinbase, unknown-parent, transactions shared across branches), caller-level resubmissions, truncations and reopens; after every step every query named in the statement is compared with an independent block-tree model.",
    note="Trusts goleveldb-on-MemStorage; blocks reach ConfirmBlock after their parent and never twice (as miner.trySyncBlock guarantees); <= 30 steps, 6 shared transaction labels; one known finding excluded by shape (see known_findings.json)."),
+ "C05": dict(level="fault_enumeration", technique=T_MODEL + "; fault injection (n-th storage write fails) and failing operations at every stage; differential against a second node opened on the reconstructed disk image after every step",
+   text="The C01 machine with rejected blocks (unknown / rejected parent, two coinbases, duplicated transaction, transactions built on an older state so that a later transaction of the block fails), refused transactions, follow-ups that depend on failed operations, and injected storage write errors. After every step the unchanged model must equal the running node and a second node opened on the disk image must answer every ledger / state query identically.",
+   note="An operation hit by an injected write error may report anything; afterwards memory must equal disk and the model is reconciled from the persisted pointer and pool. Write errors are injected at the kvdb interface (a failed write is not applied at all)."),
+ "C06": dict(level="fault_enumeration", technique="crash-point enumeration over the recorded storage write log of generated histories (every prefix / all prefixes inside multi-write operations), each image opened by the real code and compared with the reference model; restart walk differential",
+   text="A generated history is run once recording the ordered write log of both databases; every prefix (quick: all prefixes strictly inside multi-write operations, others sampled; thorough: all) is a crash image on which ledger and state are opened by the real code and checked with the C04 / C01 / C02 oracles, and Walk(ledger tip) must reach the uninterrupted run's state.",
+   note="Trusts LevelDB batch atomicity and that a crash loses a suffix of the write sequence; write granularity is the kvdb interface (puts, deletes, batches)."),
  "C10": dict(level="exploration", technique="property-based testing (rapid) of operation sequences against an overlay-map model + round-trip through the verifier's replay (XMReaderFromRWSet)",
    text="Generated Get/Put/Del/Select/Transfer sequences on the real sandbox over generated backing states; every result is compared with an overlay-map model, the flushed read/write set with the statement's three rules, and the same calls are replayed over the read set alone (the verifier's situation) demanding identical results and write set.",
    note="The backing reader imitates xmodel.XModel (verified against the real one by a probe); nil end keys only where XModel and MemXModel agree; no writes while an iterator is open."),
